@@ -78,6 +78,12 @@ func checkC01(c *km.Ctx) {
 		}
 		return f.X == ssa.Value(decision)
 	}}
+	if flag == nil && isErrorType(decision.Type()) {
+		// the decision helper reports a refusal as an error: sufficient means it returned nil
+		prSufficient.Direct = func(f km.Fact) bool {
+			return f.Op == token.EQL && km.IsNilConst(f.Y) && km.Unwrap(f.X) == ssa.Value(decision)
+		}
+	}
 	prTarget := km.Prim{Name: "target==authUser", Direct: func(f km.Fact) bool {
 		if f.Op != token.EQL {
 			return false
@@ -197,7 +203,55 @@ func findLevelFlag(fn *ssa.Function) *ssa.Phi {
 	if len(cands) == 1 {
 		return cands[0]
 	}
+	// several boolean flags (a per-iteration "matched" feeding the overall one): the level flag is the one whose
+	// test is not inside a loop
+	var outside []*ssa.Phi
+	for _, p := range cands {
+		inLoop := false
+		for _, ref := range *p.Referrers() {
+			var b *ssa.BasicBlock
+			switch x := ref.(type) {
+			case *ssa.If:
+				b = x.Block()
+			case *ssa.UnOp:
+				for _, r2 := range *x.Referrers() {
+					if iff, ok := r2.(*ssa.If); ok {
+						b = iff.Block()
+					}
+				}
+			}
+			if b != nil && km.ReachableBlocks(b, nil)[b] && blockInCycle(b) {
+				inLoop = true
+			}
+		}
+		if !inLoop {
+			outside = append(outside, p)
+		}
+	}
+	if len(outside) == 1 {
+		return outside[0]
+	}
 	return nil
+}
+
+// blockInCycle: b can reach itself.
+func blockInCycle(b *ssa.BasicBlock) bool {
+	seen := map[*ssa.BasicBlock]bool{}
+	var stack []*ssa.BasicBlock
+	stack = append(stack, b.Succs...)
+	for len(stack) > 0 {
+		x := stack[len(stack)-1]
+		stack = stack[:len(stack)-1]
+		if x == b {
+			return true
+		}
+		if seen[x] {
+			continue
+		}
+		seen[x] = true
+		stack = append(stack, x.Succs...)
+	}
+	return false
 }
 
 func constNameTables(c *km.Ctx) (protoByVal map[string]string, mainByVal map[int64]string) {
@@ -231,6 +285,16 @@ func controllingFacts(c *km.Ctx, b *ssa.BasicBlock) []km.Fact {
 }
 
 func checkLevelFlag(c *km.Ctx, s *km.Sem, h *ssa.Function, flag *ssa.Phi) {
+	checkLevelFlagRec(c, s, h, flag, map[*ssa.Phi]bool{})
+}
+
+// checkLevelFlagRec: visited holds the flags already judged (a flag set from another flag hands its obligation
+// on to that flag, which is then judged by the same rule).
+func checkLevelFlagRec(c *km.Ctx, s *km.Sem, h *ssa.Function, flag *ssa.Phi, visited map[*ssa.Phi]bool) {
+	if visited[flag] {
+		return
+	}
+	visited[flag] = true
 	protoByVal, mainByVal := constNameTables(c)
 	if len(protoByVal) < 7 || len(mainByVal) < 9 {
 		c.R.AnchorLost("R-C01-2", "AuthType* constant tables (proto strings / main bits)")
@@ -292,6 +356,23 @@ func checkLevelFlag(c *km.Ctx, s *km.Sem, h *ssa.Function, flag *ssa.Phi) {
 				ok := len(edge) > 0
 				for _, k := range edge {
 					d, good := levelLicence(c, s, k, isListed, protoByVal, mainByVal, u2fBit)
+					if !good {
+						// set because another flag is set: that flag carries the obligation
+						for _, f := range k.List() {
+							q, isPhi := f.X.(*ssa.Phi)
+							if f.Op == token.ILLEGAL && f.Pol && isPhi && !seen[q] && isBoolFlagPhi(q) {
+								for _, qq := range phiWeb(q) {
+									if seen[qq] {
+										isPhi = false
+									}
+								}
+								if isPhi {
+									checkLevelFlagRec(c, s, h, q, visited)
+									d, good = "licensed through flag "+km.ValStr(q), true
+								}
+							}
+						}
+					}
 					descs = appendUniq(descs, d)
 					if !good {
 						ok = false
@@ -425,7 +506,7 @@ func findLevelDecision(c *km.Ctx, s *km.Sem, h *ssa.Function) *ssa.Call {
 			continue
 		}
 		res := g.Signature.Results()
-		if res.Len() != 1 || res.At(0).Type().String() != "bool" {
+		if res.Len() != 1 || (res.At(0).Type().String() != "bool" && !isErrorType(res.At(0).Type())) {
 			continue
 		}
 		hasLevel, hasList := false, false
@@ -484,12 +565,26 @@ func checkLevelDecision(c *km.Ctx, s *km.Sem, call *ssa.Call) {
 		return ok && strings.HasSuffix(path, "Base.AllowedAuthBackendsForCerts")
 	}
 	n := 0
+	isErr := isErrorType(d.Signature.Results().At(0).Type())
 	for _, rc := range s.RetCases(d) {
 		v := km.Unwrap(rc.Results[0])
 		var descs []string
 		ok, nTrue := true, 0
+		if isErr && km.Nilness(rc.Results[0]) > 0 {
+			continue // a refusal
+		}
 		for _, k := range rc.State {
-			kk, mayBeTrue := s.TrueFacts(k, v)
+			kk, mayBeTrue := k, true
+			if !isErr {
+				kk, mayBeTrue = s.TrueFacts(k, v)
+			} else if !km.IsNilConst(v) {
+				// an error of unknown nilness handed on: a refusal only where this path knows it to be non-nil
+				for _, f := range k.List() {
+					if f.Op == token.NEQ && km.IsNilConst(f.Y) && km.Unwrap(f.X) == v {
+						mayBeTrue = false
+					}
+				}
+			}
 			if !mayBeTrue {
 				continue
 			}
@@ -511,4 +606,43 @@ func checkLevelDecision(c *km.Ctx, s *km.Sem, call *ssa.Call) {
 	if n == 0 {
 		c.R.AnchorLost("R-C01-2", "a return of "+km.NameOf(d)+" that can be true")
 	}
+}
+
+// phiWeb: p and the phis it merges, transitively.
+func phiWeb(p *ssa.Phi) []*ssa.Phi {
+	seen := map[*ssa.Phi]bool{}
+	var out []*ssa.Phi
+	var walk func(q *ssa.Phi)
+	walk = func(q *ssa.Phi) {
+		if seen[q] {
+			return
+		}
+		seen[q] = true
+		out = append(out, q)
+		for _, e := range q.Edges {
+			if x, ok := e.(*ssa.Phi); ok {
+				walk(x)
+			}
+		}
+	}
+	walk(p)
+	return out
+}
+
+// isBoolFlagPhi: a boolean phi whose web merges only the constants true and false.
+func isBoolFlagPhi(p *ssa.Phi) bool {
+	for _, q := range phiWeb(p) {
+		for _, e := range q.Edges {
+			switch x := e.(type) {
+			case *ssa.Phi:
+			case *ssa.Const:
+				if x.Value == nil || x.Value.Kind() != constant.Bool {
+					return false
+				}
+			default:
+				return false
+			}
+		}
+	}
+	return true
 }
